@@ -1,5 +1,6 @@
 import Originium.Model.SchedProofs
 import Originium.Generated.LockTable
+import Originium.Model.SchedObs
 /-! # C15 — every call returns: no deadlock among commits, readers, flusher and Close
 
 `Sched.Reach cap nc nr s`: `s` is reachable with a flush queue of capacity `cap` (any value, 0 =
@@ -107,6 +108,28 @@ theorem C15_block_table_nontrivial :
     (LockTable.brows.any fun r => r.kind == "wait") = true ∧
     (LockTable.brows.any fun r => r.kind == "lock" && r.obj == "DB.mu" && !r.held.isEmpty) = true := by decide +kernel
 
+
+/-! ## real executions are executions of the blocking model
+
+The `closerace` suite records the lock-region events of real concurrent runs (writers outrunning a
+slowed flusher, Close fired while they run) and the driver follows them in `Sched` with
+`Sched.follow` (subset construction over the hidden steps).  An empty set of explaining states is
+reported as a violation; as long as it is not empty, every state in it is reachable — so what the
+theorems above say about reachable states holds for the execution that was observed. -/
+
+theorem C15_observed_runs_are_model_runs (cap nc : Nat) (os : List Sched.Obs) :
+    ∀ s ∈ Sched.followAll 64 (Sched.startCalled 64 cap nc) os, Reach cap nc 0 s :=
+  Sched.followAll_sound 64 os _ (Sched.startCalled_sound 64 cap nc)
+
+/-- what the follower refuses, on two executions of the kind the pinned tree produced: Close passing
+    `<-db.closed` while a rotated memtable has not been flushed (F12), and Close taking `writeLock`
+    while a committer is inside the region (F13) -/
+theorem C15_follower_rejects :
+    Sched.followAll 64 (Sched.startCalled 64 0 1) [.clock, .capply true, .cfin, .cllock, .cldrained] = [] ∧
+    Sched.followAll 64 (Sched.startCalled 64 1 1) [.clock, .cllock] = [] ∧
+    (Sched.followAll 64 (Sched.startCalled 64 0 1) [.clock, .capply true, .cfin, .cllock, .fdone, .cldrained, .cldone]).isEmpty = false := by
+  decide +kernel
+
 /-- non-vacuity: a run with a zero-capacity queue in which a commit rotates, a reader begins meanwhile, Close races both, and everything finishes -/
 example : ∃ s, Reach 0 1 1 s ∧ s.cl = ClPc.done ∧ s.cDone = 1 ∧ s.rDone = 1 := by
   have h : (runSteps [.cCall, .cLock true, .rCall, .clCall, .cApply, .cSend, .cFinish, .rWake 0, .fDone,
@@ -123,6 +146,8 @@ example : ∃ s, Reach 0 1 1 s ∧ s.cl = ClPc.done ∧ s.cDone = 1 ∧ s.rDone 
 #print axioms C15_waits_hold_only_writeLock
 #print axioms C15_lock_order
 #print axioms C15_block_table_nontrivial
+#print axioms C15_observed_runs_are_model_runs
+#print axioms C15_follower_rejects
 #print axioms C15_progress
 #print axioms C15_bound
 #print axioms C15_close
